@@ -12,7 +12,7 @@
    per input by the check's Earley oracle over the published grammar). *)
 From Coq Require Import List Arith.
 From Kiki Require Import Base.Ord Base.Chars Data LR.Driver LR.Grammar LR.Inv LR.Complete LR.Sound LR.ErrPos
-  LR.Validate LR.ValidateProofs Front.KikiGrammar Front.Parse Front.KikiValid.
+  LR.Validate LR.Term LR.ValidateProofs Front.KikiGrammar Front.Parse Front.KikiValid.
 From Kiki Require Gen.KikiTables Gen.KikiAnn.
 Import ListNotations.
 
@@ -55,7 +55,19 @@ Proof.
   exists c, r. auto.
 Qed.
 
+(* the front-end loop stops on every token sequence, within a bound linear in its length
+   (termination certificate regenerated and re-checked on every run) *)
+Theorem C09_front_end_terminates : forall (w : list token),
+  parse token_kind kiki_ptable
+        (Gen.KikiAnn.kiki_K + ph Gen.KikiAnn.kiki_phi (pt_start kiki_ptable)
+         + length w * (Gen.KikiAnn.kiki_K + M Gen.KikiAnn.kiki_phi + 1) + 1) w <> OOutOfFuel.
+Proof.
+  exact (fun w => validated_terminates token_kind kiki_ptable _ _ kiki_tables_valid _ _ kiki_tables_terminate
+                    w (all_tokens_bounded w)).
+Qed.
+
 Print Assumptions C09_grammar_of_record.
+Print Assumptions C09_front_end_terminates.
 Print Assumptions C09_front_end_never_panics.
 Print Assumptions C09_accepts_only_sentences.
 Print Assumptions C09_accepts_every_sentence.
